@@ -37,7 +37,7 @@ ASSUMPTIONS = [
     "a field value 'changes' when it is replaced by another object that is not an equal value of the same type; node-valued fields must keep the identical object",
     "registry membership may change only as specified for detach / replace (C03's subject) and is not part of the frame",
 ]
-MUST_SEE = ["hash_churn_rounds", "copy_protocol_ops", "digest_size_switches", "ops", "frames_checked", "raising_ops", "watched_writes_on_new_nodes", "setattr_rejected", "delattr_rejected", "repo_tests_contract_evaluations", "deserialize_registry_hits", "failing_replace_on_suffix_twin", "transform_returns_existing_node", "transform_rebuilds_equal_node"]
+MUST_SEE = ["list_valued_tuple_fields", "hash_churn_rounds", "copy_protocol_ops", "digest_size_switches", "ops", "frames_checked", "raising_ops", "watched_writes_on_new_nodes", "setattr_rejected", "delattr_rejected", "repo_tests_contract_evaluations", "deserialize_registry_hits", "failing_replace_on_suffix_twin", "transform_returns_existing_node", "transform_rebuilds_equal_node"]
 CONFIG = {
     "quick": {"shards": 16, "histories": 30, "ops": 35, "watchdog_s": 600},
     "thorough": {"shards": 32, "histories": 200, "ops": 60, "watchdog_s": 3400},
@@ -479,12 +479,19 @@ def histories(ctx, U, state, take_frame, diff_frame):
                     k.detach_self()
                 copy.deepcopy(h)
 
+        def op_list_valued():
+            # a list handed in for a tuple field is accepted while type checks are off; the node exists like any other
+            ks = [k for k in rng.sample(nodes(), min(3, len(nodes()))) if isinstance(k, U.cls[f"{P}Expr"])]
+            if ks and config.RUNTIME_TYPE_CHECK is False:
+                handles.append(U.cls[f"{P}Call"](args=list(ks), kwargs=list(ks[:1])))
+                ctx.count("list_valued_tuple_fields")
+
         def op_config():
             # a configuration switch between creation and later use of the nodes (existing nodes keep their ids)
             config.ID_DIGEST_SIZE = rng.choice([s_ for s_ in (4, 8, 16) if s_ != config.ID_DIGEST_SIZE])
             ctx.count("digest_size_switches")
 
-        ops = [op_config, op_copy, op_traverse, op_tree, op_xpath, op_pattern, op_visit, op_duplicate, op_replace_ok, op_replace_fail, op_detach, op_twins, op_serialize, op_serialize, op_compare, op_rich]
+        ops = [op_config, op_copy, op_list_valued, op_traverse, op_tree, op_xpath, op_pattern, op_visit, op_duplicate, op_replace_ok, op_replace_fail, op_detach, op_twins, op_serialize, op_serialize, op_compare, op_rich]
         snap_extra = {}
         for step in range(ctx.params["ops"]):
             op = rng.choice(ops)
